@@ -56,6 +56,7 @@ class Driver:
         self.pending_user = 0
         self.done_epoch_actions = False
         self.script = list(w.scenario.get("script", []))
+        self.triggers = []
 
     def start(self):
         w = self.w
@@ -65,27 +66,60 @@ class Driver:
         for u in sc.get("user", []):
             self._schedule(u)
 
+    def argv_of(self, u):
+        w = self.w
+        out = u.get("output") or w.output
+        c = u["cmd"]
+        if c == "try-submit-jobs":
+            return ["jade", "try-submit-jobs", out]
+        if c == "show-status":
+            return ["jade", "show-status", "-o", out, "-n"]
+        if c == "cancel-jobs":
+            return ["jade", "cancel-jobs", out] + list(u.get("flags", []))
+        if c == "resubmit-jobs":
+            return ["jade", "resubmit-jobs", out] + list(u.get("flags", []))
+        return list(c)
+
     def _schedule(self, u):
         w = self.w
 
         def fire():
-            if not (os.path.exists(os.path.join(w.output, "cluster_config.json"))
-                    and os.path.exists(os.path.join(w.output, "job_status.json"))):
+            out = u.get("output") or w.output
+            if not (os.path.exists(os.path.join(out, "cluster_config.json"))
+                    and os.path.exists(os.path.join(out, "job_status.json"))):
                 # a user runs these commands on a submission that exists
                 if w.now - w.t0 < 7 * 86400 and any(v.alive for v in w.vprocs):
                     w.after(1.0, fire, "user")
                 return
-            if u["cmd"] == "try-submit-jobs":
-                argv = ["jade", "try-submit-jobs", w.output]
-            elif u["cmd"] == "show-status":
-                argv = ["jade", "show-status", "-o", w.output, "-n"]
-            else:
-                argv = list(u["cmd"])
-            w.run_user_cmd(argv, host=u.get("host"), tag="spontaneous")
+            w.run_user_cmd(self.argv_of(u), host=u.get("host"), tag=u.get("tag", "spontaneous"))
 
-        w.at(w.t0 + float(u["at"]), fire, "user")
+        if "after" in u:
+            self.triggers.append({"u": u, "fire": fire, "count": 0, "done": False})
+        else:
+            w.at(w.t0 + float(u["at"]), fire, "user")
+
+    def on_record(self, rec):
+        """Relative triggers: fire a user command after the n-th record of a kind."""
+        if not self.triggers:
+            return
+        kind = rec[2]
+        for t in self.triggers:
+            if t["done"]:
+                continue
+            a = t["u"]["after"]
+            if a["kind"] != kind:
+                continue
+            if a.get("ok") is not None and bool(rec[4].get("ok")) != a["ok"]:
+                continue
+            t["count"] += 1
+            if t["count"] >= a.get("n", 1):
+                t["done"] = True
+                self.w.after(float(t["u"].get("delay", 0.0)), t["fire"], "user")
 
     def on_exit(self, vp):
+        pass
+
+    def finish(self):
         pass
 
     def status(self):
@@ -150,6 +184,7 @@ def execute(scenario, prof, seed, trace=None, then_generate=False, props=(), deb
         w.driver = drv_cls(w, prof)
         w.quiescent_hook = w.driver.quiescent
         oracles.attach(w, prof, props)
+        w.monitors.append(w.driver)
         if world_hook:
             world_hook(w)
         kernel.W = w
